@@ -795,6 +795,9 @@ class Canon:
         # d.get(k, default) == d[k] if k in d else default
         if isinstance(fn, tuple) and len(fn) == 3 and fn[0] == "a" and fn[2] == "get" and len(args) == 2 and not kwargs:
             return mk_ite(("cmp", "in", args[0], fn[1]), ("s", fn[1], args[0]), args[1])
+        if isinstance(fn, tuple) and len(fn) == 3 and fn[0] == "a" and fn[2] == "get" and len(args) == 1 and not kwargs and fn[1] != ("self",) \
+                and not is_str(args[0]) and not is_num(args[0]):
+            return mk_ite(("cmp", "in", args[0], fn[1]), ("s", fn[1], args[0]), K_NONE)
         if fn == ("g", "float") and len(args) == 1 and is_num(args[0]):
             return args[0]
         return mk_call(fn, args, kwargs)
